@@ -71,7 +71,7 @@ func vh_c13_attrq_t() { vc13(1, 5) }
 func vh_c13_attru_t() { vc13(2, 4) }
 func vh_c13_css_t()   { vc13(3, 4) }
 func vh_c13_js_t()    { vc13(4, 4) }
-func vh_c13_md_t()    { vc13(5, 5) }
+func vh_c13_md_t()    { vc13(5, 4) }
 func vh_c13_mdcb_t()  { vc13(6, 5) }
 func vh_c13_path_t()  { vc13(7, 4) }
 func vh_c13_query_t() { vc13(8, 4) }
